@@ -571,7 +571,9 @@ fn c06_one(n: usize, spec: &crate::common::ClassingSpec, col: &Mutex<Collector>)
     };
     // ---- free-all
     let cfg = Config::new(n, spec.clone(), InitMode::FreeAll);
-    let sut = match Sut::try_new(&cfg, llfree::Init::FreeAll, n % 3 != 0) {
+    // previous contents of the caller's buffers: zero, all ones, a pattern
+    let fill = [0u8, 0xff, 0xa5, 0x01][(n / 3) % 4];
+    let sut = match Sut::try_new_filled(&cfg, llfree::Init::FreeAll, n % 3 != 0, fill) {
         Ok(s) => s,
         Err(r) => {
             fail("free-all construction failed", format!("n={n}: {}", r.short()));
@@ -658,7 +660,7 @@ fn c06_one(n: usize, spec: &crate::common::ClassingSpec, col: &Mutex<Collector>)
     drop(sut);
     // ---- allocate-all
     let cfg = Config::new(n, spec.clone(), InitMode::AllocAll);
-    let sut = match Sut::try_new(&cfg, llfree::Init::AllocAll, n % 3 != 0) {
+    let sut = match Sut::try_new_filled(&cfg, llfree::Init::AllocAll, n % 3 != 0, fill) {
         Ok(s) => s,
         Err(r) => {
             fail("allocate-all construction failed", format!("n={n}: {}", r.short()));
